@@ -323,9 +323,13 @@ fn fs_probe() {
             }
         }
         let _ = rt.block_on(simple.locate_symbols(&m));
+        let mut http_ret: Vec<Option<PathBuf>> = vec![];
         for k in kinds {
             if let Ok(p) = rt.block_on(http.locate_file(&m, k)) {
+                http_ret.push(Some(p.clone()));
                 returned.push((format!("HttpSymbolSupplier::locate_file({:?})", k), p));
+            } else {
+                http_ret.push(None);
             }
         }
         let _ = rt.block_on(http.locate_symbols(&m));
@@ -347,7 +351,59 @@ fn fs_probe() {
                 return format!("F|ESC|the run created {} outside the cache and tmp directories", shown);
             }
         }
-        format!("F|ok|{}|{}", returned.len(), created)
+        // Round 5: what exactly was returned / created, for comparison with the model's prediction
+        // (the flow model says: fetch_lookup downloads to cache.join(lookup(module, kind).cache_rel), locate_file of the
+        // simple supplier answers path.join(lookup(module, kind).cache_rel)).
+        fn rel_text(p: &Path, root: &Path) -> String {
+            let (ps, rs) = (p.to_string_lossy().into_owned(), format!("{}/", root.to_string_lossy()));
+            match ps.strip_prefix(&rs) {
+                Some(r) => hex(r.as_bytes()),
+                None => format!("?{}", hex(ps.as_bytes())),
+            }
+        }
+        let show = |v: &Vec<Option<PathBuf>>, root: &Path| -> String {
+            v.iter().map(|o| o.as_ref().map_or("N".to_string(), |p| rel_text(p, root))).collect::<Vec<_>>().join(",")
+        };
+        let made: Vec<String> = after
+            .difference(&before)
+            .filter(|p| p.starts_with(&cache))
+            .map(|p| rel_text(p, &cache))
+            .collect();
+        // third phase: a symbol directory that HAS the files; the simple supplier must answer <dir>/<cache_rel>
+        let mut simple_ret: Vec<Option<PathBuf>> = vec![];
+        for k in kinds {
+            if let Some(l) = lookup(&m, k) {
+                let dest = symbols.join(&l.cache_rel);
+                if !l.cache_rel.contains('\0') {
+                    if let Some(n) = normalize(&dest) {
+                        if n.starts_with(&symbols) && n != symbols && !n.exists() {
+                            if let Some(parent) = n.parent() {
+                                if std::fs::create_dir_all(parent).is_ok() {
+                                    let _ = std::fs::write(&n, &content);
+                                }
+                            }
+                        }
+                    }
+                }
+            }
+        }
+        for k in kinds {
+            simple_ret.push(rt.block_on(simple.locate_file(&m, k)).ok());
+        }
+        for p in simple_ret.iter().flatten() {
+            let c = p.canonicalize().unwrap_or_else(|_| normalize(p).unwrap_or_else(|| p.clone()));
+            if !c.starts_with(&symbols) {
+                return format!("F|ESC|SimpleSymbolSupplier::locate_file (populated directory) returned {} which is outside the symbol directory", c.display());
+            }
+        }
+        format!(
+            "F|ok|{}|{}|R:{}|S:{}|C:{}",
+            returned.len(),
+            created,
+            show(&http_ret, &cache),
+            show(&simple_ret, &symbols),
+            made.join(",")
+        )
     });
 }
 
